@@ -247,6 +247,17 @@ Section KV.
     | [] => (cl, [])
     | k :: r => let '(cl1, x) := kv_step cl k a in let '(cl2, xs) := kv_each cl1 r a in (cl2, x :: xs)
     end.
+
+  (* the same loop when some shards are unreachable: `node.DelCtx` fails for their keys (no effect there), the error
+     is collected (`be.Add(e)`) and the loop goes on with the next key *)
+  Variable down : nat -> bool.
+  Fixpoint kv_each_f (cl : cluster) (ks : list K) (a : A) : cluster * list (option R) :=
+    match ks with
+    | [] => (cl, [])
+    | k :: r =>
+        if down (owner k) then let '(cl2, xs) := kv_each_f cl r a in (cl2, None :: xs)
+        else let '(cl1, x) := kv_step cl k a in let '(cl2, xs) := kv_each_f cl1 r a in (cl2, Some x :: xs)
+    end.
 End KV.
 
 (* ---- clientmanager.go / clustermanager.go: one go-redis client per address ----
@@ -350,6 +361,7 @@ Definition brun (h : list bop) : bst := fold_left bstep h (mkbst 0 [] [] []).
 Arguments upd {N} cl i n.
 Arguments kv_step {N K A R} node_run owner cl k a.
 Arguments kv_each {N K A R} node_run owner cl ks a.
+Arguments kv_each_f {N K A R} node_run owner down cl ks a.
 Arguments body {S C} exec repr gerr c st ctx args.
 Arguments run_cmd {S C B} exec repr accept mark gerr c b st ctx args.
 Arguments run {S C B} bg exec repr accept mark gerr fuel tbl name b st ctx args.
